@@ -352,6 +352,10 @@ def attributes_and_kinds(repo, run):
         if not ok:
             run.report("C07.6", DS, sts[0] if sts else lp, "entry i of `%s` is not the event's own `%s` attribute (guarded by hasattr): events would be filtered or terminated by "
                                                            "another event's setting" % (attr, attr), text="prepare_events binding of %s" % attr)
+    sample_kinds(repo, run, rid, "C07.6")
+
+
+def sample_kinds(repo, run, rid, rule_id):
     fn = repo.get(DS, "handle_events")
     sd = Seeds(params={}, names={"t_prev": "T", "t_next": "T", "roots": "Seq(T)", "t_root": "T", "receptive_field": "M"},
                calls={"D.epsilon": "M"})
@@ -367,13 +371,13 @@ def attributes_and_kinds(repo, run):
             ok = k == "D" and isinstance(a.op, (ast.Add, ast.Sub)) and ke.kind(a.left) == "T"
             run.judged(rid, "sample point %s  [offset kind %s]" % (src(a)[:90], k), ok=ok)
             if not ok:
-                run.report("C07.6", DS, a, "the sample offset around a root has kind %s, not a signed duration along the step: for backward integration 'before' and 'after' the "
+                run.report(rule_id, DS, a, "the sample offset around a root has kind %s, not a signed duration along the step: for backward integration 'before' and 'after' the "
                                            "crossing are swapped (or the offset has no time unit), so the crossing direction is classified against the direction of integration" % (k,))
         else:
             run.judged(rid, "sample point %s" % src(a), ok=ke.kind(a) == "T")
     for v in vs:
         run.judged(rid, "handle_events: %s" % src(v.node)[:80], ok=False)
-        run.report("C07.6", DS, v.node, "%s discipline: %s" % (v.disc, v.why))
+        run.report(rule_id, DS, v.node, "%s discipline: %s" % (v.disc, v.why))
     if n == 0:
         raise AnalysisError("handle_events: no event sample evaluations found")
 
